@@ -1,9 +1,9 @@
 #!/bin/bash
-# usage: tools/run_all.sh [quick|thorough] [seed ...]   -- runs every registered check, prints one line each
+# usage: [PROPS="C02 C17"] tools/run_all.sh [quick|thorough] [seed ...]   -- runs every registered check (or those in PROPS), prints one line each
 cd "$(dirname "$0")/.." || exit 2
 TIER=${1:-quick}; shift; SEEDS=${@:-1}
 for s in $SEEDS; do
-  for p in $(python3 -c "import json;print(' '.join(c['property_id'] for c in json.load(open('MANIFEST.json'))['checks']))"); do
+  for p in ${PROPS:-$(python3 -c "import json;print(' '.join(c['property_id'] for c in json.load(open('MANIFEST.json'))['checks']))")}; do
     out=$(VERIF_SEED=$s ./check $p $TIER 2>&1); rc=$?
     echo "seed=$s $p rc=$rc $(echo "$out" | grep -E "^C[0-9]+ (quick|thorough)" | tail -1)"
     if [ $rc -ne 0 ]; then echo "$out" | grep -v "^KNOWN" | tail -12; fi
